@@ -810,8 +810,10 @@ func (fr *Frame) copyAggregateElems(st *State, et types.Type, dstArr, dstOff, sr
 		nh := r.declare(name, r.heapSort[name])
 		q := r.fresh("qe")
 		// copied elements
-		r.assumeBGIn(st, fmt.Sprintf("(forall ((%s Int)) (! (=> (and (<= 0 %s) (< %s %s)) (= (select %s (elemref %s (+ %s %s))) (select %s (elemref (s_arr %s) (+ (s_off %s) %s))))) :pattern ((select %s (elemref %s (+ %s %s))))))",
-			q, q, q, n, nh, dstArr, dstOff, q, h, src, src, q, nh, dstArr, dstOff, q))
+		// quantify over the absolute destination index k (no arithmetic in the trigger): element k of the destination is
+		// element k - dstOff of the source slice
+		r.assumeBGIn(st, fmt.Sprintf("(forall ((%s Int)) (! (=> (and (<= %s %s) (< %s (+ %s %s))) (= (select %s (elemref %s %s)) (select %s (elemref (s_arr %s) (+ (s_off %s) (- %s %s)))))) :pattern ((select %s (elemref %s %s)))))",
+			q, dstOff, q, q, dstOff, n, nh, dstArr, q, h, src, src, q, dstOff, nh, dstArr, q))
 		// frame: everything that is not an element of the destination array keeps its value
 		p := r.fresh("qp")
 		r.assumeBGIn(st, fmt.Sprintf("(forall ((%s Int)) (! (=> (not (and (= (refkind %s) 1) (= (elem_arr %s) %s))) (= (select %s %s) (select %s %s))) :pattern ((select %s %s))))",
